@@ -59,6 +59,17 @@ func requireMapOrderInstrumented() {
 	}
 }
 
+// c14Validate calls the real validator; a panic is returned as text (the gateway has no recover middleware:
+// a panicking validator ends the process that serves PutBucketPolicy).
+func c14Validate(doc []byte, bucket string, iam auth.IAMService) (err error, panicked string) {
+	defer func() {
+		if p := recover(); p != nil {
+			panicked = ck.Short(fmt.Sprint(p), 120)
+		}
+	}()
+	return auth.ValidatePolicyDocument(doc, bucket, iam), ""
+}
+
 // ---- statement menus -------------------------------------------------------
 
 type c14Stmt struct {
@@ -304,8 +315,12 @@ func C14(r *ck.Run) {
 			verdicts := map[bool]int{}
 			sched.ExploreChoices(0, func(ch *sched.Chooser) {
 				vmap.Current = ch
-				err := auth.ValidatePolicyDocument([]byte(d.Doc), b, iam)
+				err, panicked := c14Validate([]byte(d.Doc), b, iam)
 				vmap.Current = nil
+				if panicked != "" {
+					r.Violation(ck.JoinSig("validate", "panics", d.Class), map[string]any{"document": d.Doc, "panic": panicked})
+					err = fmt.Errorf("panic")
+				}
 				verdicts[err == nil]++
 				r.Add("evaluations", 1)
 				r.Add("validations", 1)
@@ -369,21 +384,21 @@ func c14Docs(b string) []c14Doc {
 	}
 	add("valid-deny", doc(st(`"Deny"`, `"u1"`, `"s3:GetObject"`, q(arn(b+"/*")))), true)
 	// principals
-	for _, p := range []string{`"nosuch"`, `["u1","nosuch"]`, `["*","u1"]`, `""`, `[]`, `{"AWS":"nosuch"}`, `{"AWS":[]}`, `{"AWS":""}`, `1`} {
+	for _, p := range []string{`"nosuch"`, `["u1","nosuch"]`, `["*","u1"]`, `""`, `[]`, `{"AWS":"nosuch"}`, `{"AWS":[]}`, `{"AWS":""}`, `1`, `[""]`, `["u1",""]`, `[null]`, `["u1",null]`, `{"AWS":[""]}`, `{"AWS":["u1",""]}`} {
 		add("bad-principal", doc(st(`"Allow"`, p, `"s3:GetObject"`, q(arn(b+"/*")))), false)
 	}
 	for _, p := range []string{`"*"`, `["*"]`, `["u1","u2"]`, `{"AWS":"u1"}`, `{"AWS":["u1","u2"]}`, `{"AWS":"*"}`} {
 		add("valid-principal-shape", doc(st(`"Allow"`, p, `"s3:GetObject"`, q(arn(b+"/*")))), true)
 	}
 	// actions
-	for _, a := range []string{`"s3:NoSuchAction"`, `"GetObject"`, `"s3:getobject"`, `"ec2:*"`, `"*"`, `""`, `[]`, `["s3:GetObject","s3:Bogus"]`, `"s3:Zz*"`, `"s3:"`, `1`} {
+	for _, a := range []string{`"s3:NoSuchAction"`, `"GetObject"`, `"s3:getobject"`, `"ec2:*"`, `"*"`, `""`, `[]`, `["s3:GetObject","s3:Bogus"]`, `"s3:Zz*"`, `"s3:"`, `1`, `[""]`, `["s3:GetObject",""]`, `["","s3:GetObject"]`, `[null]`, `["s3:GetObject",null]`, `"s3"`, `":"`} {
 		add("bad-action", doc(st(`"Allow"`, `"u1"`, a, q(arn(b+"/*")))), false)
 	}
 	for _, a := range []string{`"s3:*"`, `"s3:Get*"`, `["s3:GetObject","s3:PutObject"]`, `"s3:GetObj*"`} {
 		add("valid-action-shape", doc(st(`"Allow"`, `"u1"`, a, q(arn(b+"/*")))), true)
 	}
 	// resources
-	for _, rsc := range []string{q(b + "/*"), q("arn:aws:s3:::"), q("arn:aws:s3:::/" + b), q(arn("other/*")), q(arn(b + "2/*")), q(arn(b + "x")), q(arn("*")), `""`, `[]`, ql(arn(b+"/*"), arn("other/*")), q("arn:aws:s3::" + b + "/*"), `1`} {
+	for _, rsc := range []string{q(b + "/*"), q("arn:aws:s3:::"), q("arn:aws:s3:::/" + b), q(arn("other/*")), q(arn(b + "2/*")), q(arn(b + "x")), q(arn("*")), `""`, `[]`, ql(arn(b+"/*"), arn("other/*")), q("arn:aws:s3::" + b + "/*"), `1`, `[""]`, `[null]`, ql(arn(b+"/*"), ""), `[` + q(arn(b+"/*")) + `,null]`} {
 		add("bad-resource", doc(st(`"Allow"`, `"u1"`, `"s3:GetObject"`, rsc)), false)
 	}
 	for _, rsc := range []string{q(arn(b + "/*")), ql(arn(b + "/*")), ql(arn(b), arn(b+"/*")), q(arn(b + "/dir/*")), q(arn(b + "/k?y"))} {
@@ -447,6 +462,12 @@ func c14HTTP(r *ck.Run) {
 	prev := ""
 	for _, d := range c14Docs(b) {
 		doc := fix(d.Doc)
+		// the gateway has no recover middleware: a document on which the validator panics would end this process
+		// too, so it is reported from a direct call and not sent
+		if _, pan := c14Validate([]byte(doc), b, w.F.G.IAM); pan != "" {
+			r.Violation(ck.JoinSig("http-put", "validator-panics", d.Class), map[string]any{"document": doc, "panic": pan})
+			continue
+		}
 		resp := w.F.Do(gw.Root, "PUT", "/"+b, "policy", nil, []byte(doc))
 		got := w.F.Do(gw.Root, "GET", "/"+b, "policy", nil, nil)
 		stored := ""
